@@ -8,8 +8,8 @@ from harness.memrun import TICK
 ID = "C14"
 RUN_MODULE = "Spec.TTLMap Model.DecorStrategies Run.C14"
 EXPLAIN = "explain"
-RULE = ("one decorated function per case (cache.early / soft / failover / hit through the facade, default protection and condition), parameter grid "
-        "ttl in {1,2,4 s}, early_ttl/soft_ttl in {0.5,1,2 s}, cache_hits 1-4, update_after 0-3, background on/off; 2-14 calls at instants on a "
+RULE = ("one decorated function per case (cache.early / soft / failover / hit through the facade, default protection and condition; in 4 of 10 cases calls for a second argument value are interleaved), parameter grid "
+        "ttl in {1,2,4 s} spelled as float / int / timedelta / string / callable, early_ttl/soft_ttl in {0.5,1,2 s}, cache_hits 1-4, update_after 0-3, background on/off; 2-14 calls at instants on a "
         "1/16 s grid chosen below / exactly at / beyond the inner and hard TTLs; every execution of the function is scripted (returns its "
         "execution number, raises the listed exception, raises an unlisted one); a background refresh is held on a harness gate and completes "
         "at a later scripted instant (possibly after further calls). non-trivial: at least one call was answered from the store after the "
@@ -29,6 +29,10 @@ class ExcB(Exception):
     pass
 
 
+class ExcA1(ExcA):       # a proper subclass of the listed class: listed too
+    pass
+
+
 def gen_cases(rng, tier):
     cases = []
     n = 900 if tier == "quick" else 12000
@@ -36,7 +40,11 @@ def gen_cases(rng, tier):
         kind = rng.choice(["early", "early", "soft", "fail", "failc", "hit", "hit"])
         ttl = rng.choice([16, 32, 64])
         inner = rng.choice([t for t in (8, 16, 32) if t < ttl] or [8])
-        d = {"kind": kind, "ttl": ttl, "inner": inner, "bg": rng.random() < 0.5, "hits": rng.randint(1, 4), "upd": rng.choice([0, 0, 1, 2, 3])}
+        d = {"kind": kind, "ttl": ttl, "inner": inner, "bg": rng.random() < 0.5, "hits": rng.randint(1, 4), "upd": rng.choice([0, 0, 1, 2, 3]),
+             "other": rng.random() < 0.4, "spell": rng.choice(["float", "float", "int", "timedelta", "str", "callable"]),
+             "spell_inner": rng.choice(["float", "float", "int", "timedelta", "str"])}
+        if kind == "hit" and d["spell"] == "callable":
+            d["spell"] = "timedelta"      # hit() hands a callable ttl unconverted to the counter's incr(expire=...): TypeError on every call - observed, outside the property (DESIGN 9.3)      # calls with a second argument value interleaved: they have their own key, lock and counter
         ev = []
         for _ in range(rng.randint(2, 14)):
             adv = rng.choice([0, 0, 2, inner - 2, inner, inner + 2, ttl - inner, ttl - 2, ttl, ttl + 2, 4])
@@ -46,7 +54,8 @@ def gen_cases(rng, tier):
             else:
                 ev.append(["call", adv])
         d["events"] = ev
-        d["script"] = [rng.choice(["ok", "ok", "ok", "A", "B"]) for _ in range(20)]
+        d["script"] = [rng.choice(["ok", "ok", "ok", "A", "B", "A1"]) for _ in range(20)]
+        d["exc_tuple"] = rng.random() < 0.4          # exceptions=(KeyError, ExcA) instead of exceptions=ExcA
         cases.append(d)
     return cases
 
@@ -58,21 +67,25 @@ def run_impl(case):
         cache.setup("mem://?check_interval=0&size=100000")
         await cache.init()
         st = {"n": 0, "parked": [], "log": []}
-        ttl, inner = case["ttl"] * TICK, case["inner"] * TICK
+        from harness.props.c02 import ttl_py
+        ttl, inner = ttl_py(case.get("spell", "float"), case["ttl"]), ttl_py(case.get("spell_inner", "float"), case["inner"])     # TTL spellings: float / int / timedelta / '2s' / callable
         kind = case["kind"]
+        listed = (KeyError, ExcA) if case.get("exc_tuple") else ExcA
         if kind == "early": deco = cache.early(ttl=ttl, early_ttl=inner, background=case["bg"])
-        elif kind == "soft": deco = cache.soft(ttl=ttl, soft_ttl=inner, exceptions=ExcA)
-        elif kind == "fail": deco = cache.failover(ttl=ttl, exceptions=ExcA)
+        elif kind == "soft": deco = cache.soft(ttl=ttl, soft_ttl=inner, exceptions=listed)
+        elif kind == "fail": deco = cache.failover(ttl=ttl, exceptions=listed)
         elif kind == "failc":
             def cond(result, args, kwargs, key=None):
                 if result % 2 == 1:
                     raise ExcA()           # the store condition itself fails with a listed exception
                 return True
-            deco = cache.failover(ttl=ttl, exceptions=ExcA, condition=cond)
+            deco = cache.failover(ttl=ttl, exceptions=listed, condition=cond)
         else: deco = cache.hit(ttl=ttl, cache_hits=case["hits"], update_after=case["upd"], background=case["bg"])
 
         @deco
         async def f(x):
+            if x != 1:
+                return -x          # the other key: answered at once, never scripted
             i = st["n"]; st["n"] += 1
             what = case["script"][i % len(case["script"])]
             gate = asyncio.get_running_loop().create_future()
@@ -82,6 +95,7 @@ def run_impl(case):
             rec["done"] = True
             rec["t"] = round((vclock.Clock.now - vclock.BASE) / TICK)
             if what == "A": raise ExcA()
+            if what == "A1": raise ExcA1()
             if what == "B": raise ExcB()
             return 1000 + i
 
@@ -104,6 +118,9 @@ def run_impl(case):
                     await drain()
                     steps.append(["done", tick(), r["what"], r["i"], None, None])
                 continue
+            if case.get("other"):
+                await f(2)
+                await drain()
             before = len(st["parked"])
             task = asyncio.ensure_future(f(1))
             await drain()
@@ -140,7 +157,7 @@ def run_impl(case):
 
 
 def _x(what, i):
-    return C("XOk", Z(1000 + i)) if what == "ok" else C("XExc", Z(1 if what == "A" else 2))
+    return C("XOk", Z(1000 + i)) if what == "ok" else C("XExc", Z(1 if what in ("A", "A1") else 2))
 
 
 def to_coq(case, obs):
